@@ -806,6 +806,101 @@ fn resolve<'a>(a: &gimli::AttributeValue<R<'a>>, s: &'a Sections, big: bool) -> 
     }
 }
 
+/// Tables with many entries: the counts cross the one/two-byte ULEB128 boundary.
+fn sub_file_counts(_tier: Tier, subs: &mut Vec<Sub>) {
+    let counts: [usize; 9] = [1, 2, 126, 127, 128, 129, 255, 256, 300];
+    push_sub(subs, Sub::new(
+        "file-counts",
+        counts.len() as u64 * 3 * 2 * 2,
+        "N directories and N files (file k in directory k) for N in {1,2,126,127,128,129,255,256,300} x versions {2,4,5} x DWARF32/64 x byte order, inline strings, one row per first / middle / last file: every directory and every file entry of the header (name, directory index), and the rows' files, compared after read-back",
+        move |ctx, i| {
+            let mut m = Mix(i);
+            let big = m.flag();
+            let fmt64 = m.flag();
+            let version = *m.pick(&[2u16, 4, 5]);
+            let n = *m.pick(&counts);
+            let enc = Encoding { version, format: if fmt64 { Format::Dwarf64 } else { Format::Dwarf32 }, address_size: 8 };
+            let case = || format!("{} {} directories and files", render_enc(&enc, big), n);
+            ctx.eval(1);
+            let mut ls = LineStringTable::default();
+            let mut st = StringTable::default();
+            let mut p = match guard(|| LineProgram::new(enc, LineEncoding::default(), LineString::String(b"/wd".to_vec()), None, LineString::String(b"main.c".to_vec()), None)) {
+                Ok(p) => p,
+                Err(pn) => return crate::fail_panic(ctx, "LineProgram::new", &pn, case()),
+            };
+            let mut ids = vec![];
+            let built = guard(|| {
+                for k in 0..n {
+                    let d = p.add_directory(LineString::String(format!("dir{}", k).into_bytes()));
+                    ids.push(p.add_file(LineString::String(format!("f{}.c", k).into_bytes()), d, None));
+                }
+                p.begin_sequence(Some(Address::Constant(0x1000)));
+                for (j, &k) in [0usize, n / 2, n - 1].iter().enumerate() {
+                    let r = p.row();
+                    r.file = ids[k];
+                    r.address_offset = j as u64;
+                    p.generate_row();
+                }
+                p.end_sequence(3);
+            });
+            if let Err(pn) = built {
+                return crate::fail_panic(ctx, "LineProgram::add_file", &pn, case());
+            }
+            let secs = match write_program(&p, enc, big, &mut ls, &mut st) {
+                Err(pn) => return crate::fail_panic(ctx, "LineProgram::write", &pn, case()),
+                Ok(Err(e)) => return ctx.fail("LineProgram::write", "write", "unexpected-error", format!("{}: Err({})", case(), e)),
+                Ok(Ok(s)) => s,
+            };
+            let res = guard(|| -> Result<(), String> {
+                let dl = gimli::DebugLine::new(&secs.line, endian(big));
+                let prog = dl.program(DebugLineOffset(0), 8, None, None).map_err(|e| format!("unreadable output: {:?}", e))?;
+                let h = prog.header().clone();
+                // version 5 lists the working directory and the primary file as entry 0
+                let skip = if version >= 5 { 1 } else { 0 };
+                if h.include_directories().len() != n + skip || h.file_names().len() != n + skip {
+                    return Err(format!("{} directories and {} files read back, {} of each written", h.include_directories().len(), h.file_names().len(), n + skip));
+                }
+                for k in 0..n {
+                    let d = &h.include_directories()[k + skip];
+                    let f = &h.file_names()[k + skip];
+                    let dn = match d {
+                        gimli::AttributeValue::String(r) => r.slice().to_vec(),
+                        other => return Err(format!("directory {} reads back as {:?}", k, other)),
+                    };
+                    let fnm = match f.path_name() {
+                        gimli::AttributeValue::String(r) => r.slice().to_vec(),
+                        other => return Err(format!("file {} reads back as {:?}", k, other)),
+                    };
+                    // directory index: version 5 counts from the working directory (0), earlier versions from 1
+                    let want_dir = k as u64 + 1;
+                    if dn != format!("dir{}", k).into_bytes() || fnm != format!("f{}.c", k).into_bytes() || f.directory_index() != want_dir {
+                        return Err(format!("entry {}: directory {:?}, file {:?} in directory {} (expected dir{}, f{}.c, {})", k, String::from_utf8_lossy(&dn), String::from_utf8_lossy(&fnm), f.directory_index(), k, k, want_dir));
+                    }
+                }
+                let mut rows = prog.rows();
+                let mut got = vec![];
+                while let Some((_, r)) = rows.next_row().map_err(|e| format!("rows: {:?}", e))? {
+                    got.push((r.address(), r.file_index(), r.end_sequence()));
+                }
+                let fi = |k: usize| k as u64 + 1;
+                let want = vec![(0x1000, fi(0), false), (0x1001, fi(n / 2), false), (0x1002, fi(n - 1), false), (0x1003, fi(n - 1), true)];
+                if got != want {
+                    return Err(format!("rows {:?}, expected {:?}", got, want));
+                }
+                Ok(())
+            });
+            match res {
+                Err(pn) => crate::fail_panic(ctx, "read-back", &pn, case()),
+                Ok(Err(e)) => ctx.fail("LineProgram::write", "file-tables", "wrong-table-with-many-entries", format!("{}: {}", case(), e)),
+                Ok(Ok(())) => {
+                    ctx.nontriv(1);
+                    ctx.outcome("files:many-entries-compared");
+                }
+            }
+        },
+    ));
+}
+
 fn sub_files(tier: Tier, subs: &mut Vec<Sub>) {
     let maxops = tier.pick(2u32, 3u32);
     let nseq = seq_count(N_TOP, 0, maxops);
@@ -1213,6 +1308,7 @@ pub fn def(tier: Tier) -> CheckDef {
     sub_encodings(tier, &mut subs);
     sub_boundary(tier, &mut subs);
     sub_files(Tier::Thorough, &mut subs); // cheap: thorough bounds in both tiers
+    sub_file_counts(tier, &mut subs);
     sub_refusals(tier, &mut subs);
     sub_unit_encoding_differs(tier, &mut subs);
     CheckDef {
